@@ -52,6 +52,11 @@ def c05(tier, seed):
     for y in years:
         crop = rnd.choice(["Cotton", "CottonGDD"]) if y in (1984, 1987, 1988) else rnd.choice(["Cotton", "CottonGDD", "Sorghum", "SorghumGDD", "Maize", "Sunflower", "Soybean"])
         scs.append(L.builtin_scenario(crop, y, irr={"method": 1, "kw": {"SMT": [rnd.choice([20, 20, 30])] * 4, "MaxIrr": rnd.choice([6, 6, 8])}}))
+    # cold from sowing until after the start of yield formation (no transpiration, no biomass at all when the harvest index starts to build up)
+    import datetime as _dt
+    p0_ = _dt.date(2001, 4, 20)
+    for crop in ("Sunflower", "Sorghum"):
+        scs.append(S(crop, "Loam", seed=rnd.randrange(10 ** 6), events=[{"from": L.dstr(p0_), "to": L.dstr(p0_ + _dt.timedelta(days=88)), "Tmax": 6.0, "Tmin": 1.0}]))
     # a water table a little BELOW the maximum rooting depth and a dry start (roots expanding through soil between wilting point and the
     # table-adjusted field capacity)
     for crop, zmax in (("Tomato", 1.0), ("Wheat", 1.5), ("Potato", 1.5)):
@@ -137,6 +142,8 @@ def c12(tier, seed):
         S("Barley", "Loam", seed=seed + 9, lead=20, seasons=2),
         S("PaddyRice", "Paddy", seed=seed + 10, lead=9, off_season=True, regime="monsoon", iwc={"value": ["FC", "FC"], "depth_layer": [1, 2]}),
         S("Wheat", "SandyLoam", seed=seed + 11, lead=5, crop_kw={"Zmin": 0.15, "Aer": 10}),
+        # surface-layer depths that are not a whole number of centimetres
+        S("Barley", seed=seed + 13, soil_spec={"type": "SiltLoam", "kw": {"z_top": 0.125, "z_cn": 0.255, "z_germ": 0.333, "evap_z_min": 0.155}}),
         # scheduled depths above the daily maximum (the cap is applied to the day's application, the schedule stays as given)
         S("Maize", "SandyLoam", seed=seed + 12, seasons=2, irr={"method": 3, "schedule": [["2001/05/15", 40], ["2001/06/15", 60], ["2002/06/01", 45]], "kw": {"MaxIrr": 25}}),
     ]
@@ -193,6 +200,9 @@ def c13(tier, seed):
                          regime=rnd.choice(["arid", "warm"]) if crop in L.CAL_CROPS else None,
                          seasons=rnd.choice([1, 2]), off_season=rnd.random() < 0.4, lead=rnd.choice([0, 10]),
                          iwc=rnd.choice([None, {"value": ["WP"]}])))
+    # thresholds at (almost) 100 % of TAW in wet weather: the root zone is often ABOVE field capacity, where the estimate subtracts the excess water
+    scs.append(S("Maize", "ClayLoam", seed=seed + 92, regime="wet", irr={"method": 1, "kw": {"SMT": [100, 97, 95, 100], "AppEff": 80, "MaxIrr": 30}}))
+    scs.append(S("Tomato", "SandyLoam", seed=seed + 93, regime="warm", irr={"method": 1, "kw": {"SMT": [100] * 4, "MaxIrr": 6}}))
     # constant-depth strategy with the depth specified from outside between calls (the documented use: IrrMngt.depth is set before each step)
     scs.append(S("Sorghum", "Loam", seed=seed + 91, irr={"method": 5, "kw": {"depth": 0, "MaxIrr": 20}, "depth_plan": [[20, 6.0], [45, 0.0], [60, 12.5], [61, 3.0], [90, 30.0]]}))
     # a dated schedule on a management object that served ANOTHER model before (a window of the same length a year earlier; the same window with
@@ -235,6 +245,10 @@ def c19(tier, seed):
                      iwc=rnd.choice([{"value": ["FC"] * nl, "depth_layer": list(range(1, nl + 1))}, {"value": ["WP"] * nl, "depth_layer": list(range(1, nl + 1))}])))
     # no table at all: CR = GwIn = 0
     scs.append(S("Maize", "Loam", seed=seed + 7))
+    # the table FALLS by metres from one day to the next (Constant method): the adjusted field capacity of the day is computed from the day's depth
+    for k, (soil, z0, z1) in enumerate([("SandyLoam", 0.9, 8.0), ("Loam", 0.6, 3.0), ("Clay", 1.2, 4.5)]):
+        scs.append(S(["Wheat", "Tomato", "Maize"][k], soil, seed=rnd.randrange(10 ** 6),
+                     gw={"water_table": "Y", "method": "Constant", "dates": ["2001/04/20", "2001/06/05", "2001/07/20"], "values": [z0, z1, z0 + 0.3]}))
     # observation dates handed over as datetime.date objects / day-resolution numpy datetimes / Timestamps (not strings)
     for k, dt_ in enumerate(("date", "np64", "timestamp")):
         scs.append(S(["Wheat", "Tomato", "Barley"][k], ["Loam", "SandyLoam", "ClayLoam"][k], seed=rnd.randrange(10 ** 6),
